@@ -218,6 +218,30 @@ class C07(Check):
                             stop = True
                             break
                         mismatch = None
+                        # the statement is about the decision for given matrices: is the twin's reward matrix the relabelled base matrix?
+                        try:
+                            rows = [te["targets"].index(tmap[tid]) for tid in be["targets"]]
+                            cols = [te["sensors"].index(smap[sid]) for sid in be["sensors"]]
+                            same_inputs = bool(np.allclose(te["reward"][np.ix_(rows, cols)], be["reward"], rtol=1e-9, atol=1e-12, equal_nan=True))
+                        except (ValueError, KeyError):
+                            same_inputs = True     # reported below as a missing image
+                        if not same_inputs:
+                            # the inputs differ: legitimate only if the two runs' states already differ - by the rounding that stacking the same
+                            # observations in another order (sensor ids sort differently) leaves in an estimate, which normalising a numerically
+                            # zero metric by its maximum can blow up to order one.  With bit-identical states before the step it is a violation.
+                            bp, tp = base["steps"].get(k - 1, {}), twin["steps"].get(k - 1, {})
+                            same_state = all(tmap.get(tid) in tp.get("estimates", {}) and np.array_equal(x, tp["estimates"][tmap[tid]][0]) and np.array_equal(pm, tp["estimates"][tmap[tid]][1])
+                                             for tid, (x, pm) in bp.get("estimates", {}).items())
+                            same_state = same_state and all(tp.get("pointing", {}).get(smap.get(sid)) == v for sid, v in bp.get("pointing", {}).items())
+                            if k >= 2 and not same_state:
+                                cnt["relabel_stopped_at_rounding_difference_in_state"] = cnt.get("relabel_stopped_at_rounding_difference_in_state", 0) + 1
+                                stop = True
+                                break
+                            viol.append({"clause": "relabelling-changes-reward", "key": str(st_policy(b, eid)),
+                                         "detail": f"step {k} engine {eid}: estimates and sensor pointing before the step are bit-identical under the relabelling, but the reward matrix is not the relabelled one: "
+                                                   f"base {be['reward'].tolist()} (targets {be['targets']}, sensors {be['sensors']}), relabelled run {te['reward'].tolist()} (targets {te['targets']}, sensors {te['sensors']})"})
+                            stop = True
+                            break
                         for ti, tid in enumerate(be["targets"]):
                             for si, sid in enumerate(be["sensors"]):
                                 try:
